@@ -3,7 +3,7 @@
 
 *)
 From Coq Require Import ZArith NArith List Bool Arith.
-From NSG Require Import Base.Prelude Model.Defender Model.Coord Proofs.CoordBase Proofs.CoordInv Proofs.CoordInvConn Proofs.CoordInvDispatch Proofs.CoordInvHandler Proofs.CoordProps Proofs.CoordDirect.
+From NSG Require Import Base.Prelude Model.Defender Model.Coord Proofs.CoordBase Proofs.CoordInv Proofs.CoordInvConn Proofs.CoordInvDispatch Proofs.CoordInvHandler Proofs.CoordProps Proofs.CoordDirect Proofs.CoordInv2 Proofs.CoordAgentStep.
 Import ListNotations.
 
 (* the reset task does nothing unless the game is non-empty and every agent in it has asked *)
@@ -76,6 +76,39 @@ Theorem C07_done :
             (if want then @Some (@traj V G) (@a_traj V G a) else @None (@traj V G))).
 Proof. exact (@reset_done_content). Qed.
 
+(* ACROSS LABELS: a registered reset request stays registered along every continuation until the reset task runs (or the agent leaves) *)
+Theorem C07_request_stays :
+  forall (V W G : Type) (wstep : W -> V -> G -> W * V) (wreset : W -> W) (winit : W -> role -> W * V)
+         (goal : role -> V -> bool) (detect : list G -> G -> bool) (cfg : config) 
+         (w : W) (ls0 ls : list (@label G)) (s s' : @state V W G) (c : addr) (a : @agent V G),
+       @execs V W G wstep wreset winit goal detect cfg (@init_state V W G w) ls0 = @Some (@state V W G) s ->
+       @execs V W G wstep wreset winit goal detect cfg s ls = @Some (@state V W G) s' ->
+       @no_reset G ls ->
+       @alookup (@agent V G) c (@agents V W G s) = @Some (@agent V G) a ->
+       @a_req V G a = true ->
+       (exists a' : @agent V G,
+          @alookup (@agent V G) c (@agents V W G s') = @Some (@agent V G) a' /\ @a_req V G a' = true) \/
+       @gone_along V W G wstep wreset winit goal detect cfg s ls c.
+Proof. exact (@request_stays_reachable). Qed.
+
+(* in every reachable state a registered request has its handler waiting for the reset: no request is ever left without somebody to answer RESET_DONE *)
+Theorem C07_request_handler :
+  forall (V W G : Type) (wstep : W -> V -> G -> W * V) (wreset : W -> W) (winit : W -> role -> W * V)
+         (goal : role -> V -> bool) (detect : list G -> G -> bool) (cfg : config) 
+         (w : W) (ls : list (@label G)) (s : @state V W G) (c : addr) (a : @agent V G),
+       @execs V W G wstep wreset winit goal detect cfg (@init_state V W G w) ls = @Some (@state V W G) s ->
+       @alookup (@agent V G) c (@agents V W G s) = @Some (@agent V G) a ->
+       @a_req V G a = true ->
+       exists h : @handler V G,
+         @In (@handler V G) h (@handlers V W G s) /\ @h_addr V G h = c /\ @waiting_reset V G h.
+Proof. exact (@request_has_handler_reachable). Qed.
+
+(* only the reset task clears a request *)
+Theorem C07_cleared_by_reset :
+  forall (V G : Type) (cfg : config) (a a' : @agent V G) (l : @label G),
+       @achange V G cfg a l a' -> @a_req V G a = true -> @a_req V G a' = false -> l = @LRun G TReset.
+Proof. exact (@achange_req_cleared). Qed.
+
 
 (* non-vacuity: a concrete run of the executable instance reaches a state in which a request is
    held back at a barrier (two required players, one has joined) and the model is quiescent *)
@@ -96,3 +129,6 @@ Print Assumptions C07_collective.
 Print Assumptions C07_voluntary.
 Print Assumptions C07_fresh.
 Print Assumptions C07_done.
+Print Assumptions C07_request_stays.
+Print Assumptions C07_request_handler.
+Print Assumptions C07_cleared_by_reset.
